@@ -52,3 +52,14 @@ package api
 //@   requires ns != nil
 //@   modifies ns.FreezeEndTime
 //@   ensures ns.FreezeEndTime == 0
+
+//@ func NodeStatus.IsFrozen
+//@   props C14
+//@   modifies nothing
+//@   ensures result == (ns.FreezeEndTime > 0)
+
+//@ func NodeStatus.IsEligibleForElection
+//@   props C14
+//@   requires ns != nil
+//@   modifies nothing
+//@   ensures result == (epoch > ns.ElectionEligibleAfter)
